@@ -126,6 +126,14 @@ def run(rep, tier, driver):
     # assembly Model in the loop: LabelsOK on the real boundary strings of every merge (a re-used open label gives a valid but wrong molecule)
     import mergex
     mergex.run(rep, tier, driver, [s for (s, o, tag), r in zip(jobs, res) if tag in ("well-formed", "fixed", "deep-chain") and not o and r[0] == "ok" and r[1] and "(" in s][:300 if tier == "quick" else 4000])
+    # the life of the Glycan object (Model: Api/Lifecycle.lean): construction, eager / lazy assembly, release gate, repeated get_smiles
+    import lifex
+    ljobs = [(s, {k: v for k, v in o.items() if k in ("full", "tree_only", "root_orientation", "start")}) for s, o, tag in jobs
+             if tag in ("meaningless", "fixed", "single-mod", "late-position-pair", "well-formed")]
+    ljobs += [(s, o) for s in ["Glc1OMe(a1-4)Glc", "Man1Ac(a1-4)Glc", "Fuc1F(a1-4)Glc", "Glc2PCho8Ac", "Glc(a1-?)Glc", "Glc7S", "Man(a1-4)Glc", "Unk(a1-4)Glc"]
+              for o in [{}, {"full": False}, {"tree_only": True}, {"tree_only": True, "full": False}]]
+    rng.shuffle(ljobs)
+    lifex.run(rep, tier, driver, ljobs)
     # the same inputs through convert (batches)
     strs = [s for s, o, _ in jobs if not o][: (300 if tier == "quick" else 3000)]
     batches = [strs[i:i + 25] for i in range(0, len(strs), 25)]
